@@ -248,6 +248,44 @@ def rule_f(R, ctx):
     R.floor("C12.f", "loop-carried redone lookups", len(sites) - 1 if len(sites) else 0, 4)
 
 
+def rule_g(R, ctx):
+    Y = ctx.yrs
+    R.rule("C12.g", "R-ORDER protect last: in UndoManager::handle_after_transaction the pass that re-protects what the current "
+                    "transaction deleted (`item.keep(true)`) is never followed by the pass that releases the items of the dropped "
+                    "redo stack (`item.keep(false)`, run inside retain_mut): keep() propagates along the parent chain, so a release "
+                    "after the protect strips the flag from a just-deleted container that is an ancestor of a released item, and the "
+                    "GC that runs right after the hook collects it")
+    fn = Y.fn(UM + "::handle_after_transaction")
+    v = FnView(fn)
+    cfg = fn.cfg()
+
+    def keep_sites(val):
+        out = []
+        for cs in fn.calls():
+            if F.strip_generics(cs.name).endswith("ItemPtr::keep") and len(cs.args) == 2 and mir_root(fn, cs.args[1]) == ("const", val):
+                out.append(cs.bb)
+            for i in range(len(cs.args)):
+                for x in walk(v.arg(cs, i, 6)):
+                    if x[0] == "agg" and "{closure#" in str(x[1]):
+                        c = Y.fns.get(str(x[1]))
+                        if c is not None and any(F.strip_generics(k.name).endswith("ItemPtr::keep") and len(k.args) == 2 and
+                                                 mir_root(c, k.args[1]) == ("const", val) for k in c.calls()):
+                            out.append(cs.bb)
+        return sorted(set(out))
+
+    prot = keep_sites(1)
+    rel = keep_sites(0)
+    R.floor("C12.g", "keep(true) sites in handle_after_transaction", len(prot), 1)
+    R.floor("C12.g", "keep(false) sites in handle_after_transaction", len(rel), 1)
+    for k, p in enumerate(prot):
+        reach = cfg.reachable_from(p)
+        later = [r for r in rel if r in reach and r != p]
+        R.ob("C12.g", fn, "protect#%d" % k, not later,
+             "no release pass is reachable after this protect pass" if not later else
+             "a keep(false) pass (bb%s) runs after this keep(true) pass: the protection of the items this transaction deleted can be "
+             "undone through the parent chain before GC runs" % later, "%s:%s" % (fn.file, fn.blocks[p]["t"].get("line")))
+
+
 def check(ctx, R):
     R.run("C12.a", rule_a, ctx)
     R.run("C12.b", rule_b, ctx)
@@ -255,4 +293,5 @@ def check(ctx, R):
     R.run("C12.d", rule_d, ctx)
     R.run("C12.e", rule_e, ctx)
     R.run("C12.f", rule_f, ctx)
+    R.run("C12.g", rule_g, ctx)
     return {}
